@@ -82,7 +82,11 @@ def run(name, props, tier="quick"):
         sys.exit("/repo is dirty: " + out)
     rc, out = sh(["git", "-C", "/repo", "apply", os.path.join(d, "patch.diff")])
     if rc:
-        sys.exit("patch does not apply: " + out)
+        # the patch was made before the hook commits; fall back to a fuzzy apply
+        rc, out = sh("patch -p1 -F3 --no-backup-if-mismatch < %s" % os.path.join(d, "patch.diff"), cwd="/repo")
+        if rc:
+            sh(["git", "-C", "/repo", "checkout", "--", "."])
+            sys.exit("patch does not apply: " + out)
     res = {}
     try:
         for p in props:
@@ -95,6 +99,7 @@ def run(name, props, tier="quick"):
                 print(out[-1500:])
     finally:
         sh(["git", "-C", "/repo", "checkout", "--", "."])
+        sh("git -C /repo clean -fdq -e target")
     meta.setdefault("results", {}).update(res)
     json.dump(meta, open(os.path.join(d, "meta.json"), "w"), indent=1)
     return res
